@@ -208,14 +208,21 @@ impl Prop for C15 {
                         // blockers: the job cannot start before they are released
                         let gate = Arc::new(AtomicBool::new(false));
                         let mut blockers_in = 0;
+                        // blockers that gave up waiting (only under extreme starvation): then the
+                        // observation below says nothing
+                        let gave_up = Arc::new(std::sync::atomic::AtomicUsize::new(0));
                         if busy_pool && marks.issued as usize == all_finished_count(&ctx, &flat, marks.issued) {
                             let arrived = Arc::new(std::sync::atomic::AtomicUsize::new(0));
                             for _ in 0..threads {
-                                let (g, a) = (gate.clone(), arrived.clone());
+                                let (g, a, gu) = (gate.clone(), arrived.clone(), gave_up.clone());
                                 tp.spawn(move || {
                                     a.fetch_add(1, SeqCst);
                                     let t0 = Instant::now();
-                                    while !g.load(SeqCst) && t0.elapsed() < Duration::from_secs(5) {
+                                    while !g.load(SeqCst) {
+                                        if t0.elapsed() > Duration::from_secs(20) {
+                                            gu.fetch_add(1, SeqCst);
+                                            break;
+                                        }
                                         std::thread::sleep(Duration::from_micros(100));
                                     }
                                 });
@@ -246,7 +253,7 @@ impl Prop for C15 {
                             // nothing of this dispatch can have started: running() must say true
                             for _ in 0..polls.max(1) {
                                 let r = ad.running();
-                                if !r {
+                                if !r && gave_up.load(SeqCst) == 0 {
                                     gate.store(true, SeqCst);
                                     return Err(bad("running() returned false although the dispatch just issued cannot have started (every pool worker is occupied)".into()));
                                 }
